@@ -52,7 +52,9 @@
 //     routes makes it a routing connector: on every Consume it asks the router it was given for
 //     Consumer(ids...) with the ids exactly as written (repeated ids, unconnected pipelines and the
 //     empty route included); a refused route is recorded in [Env.RouteErrors], nothing is forwarded
-//     and Consume returns a "cannot route" error. See [RouteClasses] / [MakeRoute].
+//     and Consume returns a "cannot route" error. See [RouteClasses] / [MakeRoute]. route_sequence
+//     sends the same outgoing payload to several routes in turn (["*"] = the default consumer) and
+//     mark_read_only marks the outgoing payload read-only first and retains it ([Env.Retained]).
 //   - extension "kext": config {deps: [ids]} returned from Dependencies().
 //
 // # Configuration model and oracle
